@@ -23,6 +23,7 @@ The code under execution is concrete (symbolic code regions are C19's subject). 
 -/
 import HalmosVerif.Model.BitVecOps
 import HalmosVerif.Spec.Evm
+import HalmosVerif.Spec.Keccak
 
 namespace HalmosVerif.Model.Sevm
 open HalmosVerif.Spec HalmosVerif.Model
@@ -42,6 +43,10 @@ structure Cfg where
   maxMem : Nat := 2 ^ 20           -- `MAX_MEMORY_SIZE` (constants.py)
   balances : Bool := false         -- Model.SevmCalls: BALANCE / SELFBALANCE / value-bearing calls are followed (else stuck)
   balZero : Bool := false          -- the initial balance array is `balance_00` (read as the literal 0), else `balance_0`
+  sha3 : Bool := false             -- Model.SevmCalls: SHA3 is followed (else stuck)
+  keccak : List Nat → Nat := Keccak.keccak256   -- the hash of concrete data (`sha3_hash`)
+  create : Bool := false           -- Model.SevmCalls: CREATE is followed (else stuck)
+  allocBase : Nat := 0xaaaa0001    -- `magic_address + new_address_offset`: attempt `n` (from 1) gets `allocBase + n`
 
 /-- the symbolic transaction: what CALLER, CALLVALUE, … push, and the calldata read as 32-byte words -/
 structure Env where
@@ -66,6 +71,8 @@ structure SState where
   storage : List (Nat × T) := []   -- plain slots of the executing account written so far: slot ↦ 256-bit term, newest first
   transient : List (Nat × T) := [] -- the same for transient storage
   returndata : List T := []        -- output of the last message call of this frame (byte terms); empty before any call
+  created : List (Nat × List Nat) := []  -- accounts made by CREATE on this path (address ↦ code), newest first; shared by the frames like `path`
+  nonce : Nat := 0                 -- `cnts["address"]`: the number of CREATE attempts on this path so far
 
 inductive StuckReason where
   | notConcrete | unsupported (op : Nat) | internal (e : PyErr)
